@@ -1,5 +1,5 @@
 """Conversions between JSON-able case data and gambatools objects (used inside workers)."""
-SYMS = 'abcdefgh'
+SYMS = 'abcdefgh01_ε'
 
 
 def sym(a):
